@@ -98,7 +98,7 @@ func genC03Harness(u *PkgUnit, o routeOpts) error {
 	w := newVerifRec()
 	u := &url.URL{Path: path}
 	vrt.SetQuery(u, query)
-	r := &http.Request{Method: method, URL: u, Header: hdr}
+	r := &http.Request{Method: method, URL: u, Header: hdr, Body: http.NoBody}
 	vrt.Enter()
 	api.ServeHTTP(w, r)
 	want, wantTmpl := verifRefRoute(path, method)
